@@ -4,6 +4,7 @@
 // function, two values of each parameter the cache must distinguish; per-family search to the fixed
 // point and cross-family sequences to depth 2 (quick) / 3 (thorough); on every transition the outputs
 // must be bit-identical to the outputs in the initial state and to freshly built explicit tables.
+// Part 3: every constructor x size x content of freshly allocated heap memory (0x00, 0xFF, 0xA5): same results.
 // Part 2 (case runner): every entry point and exported kernel executed with different prefills of
 // outputs and scratch and with every buffer at byte offsets 0,8,...,56: outputs bit-identical.
 #include "../harness/lsm_explore.hpp"
@@ -90,8 +91,25 @@ int main(int argc, char** argv) {
   std::vector<KernelGroup> kg = kernel_groups(th);
   ctx.parallel(kg.size(), [&](uint64_t gi) { run_kernel_group(kg[gi], th, [&](ApiCase& c, const KernelInfo&) { runs(c); }); }, "kernels");
 
+  // part 3: constructors x sizes x content of freshly allocated heap memory (an environment answer the harness owns):
+  // an object built from the same arguments must behave the same whatever the allocator hands out
+  std::vector<CtorOp> cops = ctor_ops(true);
+  uint64_t ctor_runs_total = 0;
+  {
+    std::vector<uint64_t> cr(cops.size(), 0);
+    ctx.parallel(cops.size(), [&](uint64_t k) {
+      uint64_t n = run_ctor_env(cops, k, k + 1, [&](const std::string& id) { return ctx.want(id); },
+                                [&](const std::string& id, const std::string& msg) { ctx.violation(id, msg); },
+                                [&](const std::string& id, bool begin) { if (begin) ctx.begin_case(id); else ctx.end_case(true); });
+      ctx.metric_add(0, n);
+    }, "constructor environment");
+  }
+  ctx.name_metric(0, "constructor_executions");
+
   Json ex = Json::obj();
   ex.set("states", states).set("transitions", transitions).set("traces_validated_against_impl", transitions);
+  ex.set("constructor_environment", sfmt("%zu constructor ops x 3 contents of fresh heap memory (0x00, 0xFF, 0xA5), each in its own process", cops.size()));
+  (void)ctor_runs_total;
   ex.set("self_loops", selfloops).set("max_depth_with_new_state", maxdepth_seen).set("families", famj).set("family_fixed_points_reached", fixed_points);
   ex.set("cross_family", sfmt("all sequences of length <= %d over %zu ops: %llu states, %llu transitions", depth, all.size(), (unsigned long long)cross_states, (unsigned long long)cross_trans));
   ex.set("ops", (long long)L.ops.size()).set("hidden_state_bytes", sfmt("static %zu + tls %zu + library heap", lib_image().stat_len, lib_image().tls_len));
@@ -100,6 +118,6 @@ int main(int argc, char** argv) {
                      "sequences longer than the depth bound across different function families are covered only through state equality (a state reached again is not expanded twice)"};
   return ctx.finish("model_checking",
                     "states = canonical hash of (library .data/.bss, TLS block, library-owned heap with pointers normalised); transitions = real calls of the op alphabet (17 *_simple functions x 2 dimensions x 2 values of every cache-relevant parameter, "
-                    "module entry points on FFT64/NTT120 modules N=4,16, table-based kernels); per-family search to the fixed point and cross-family sequences to the depth bound; plus prefill/offset independence of every table case (8 runs each)",
+                    "module entry points on FFT64/NTT120 modules N=4,16, table-based kernels); per-family search to the fixed point and cross-family sequences to the depth bound; plus prefill/offset independence of every table case (8 runs each) and constructors x sizes x 3 contents of fresh heap memory",
                     true, ex);
 }
